@@ -56,6 +56,12 @@ def units(tier):
         for a0 in range(lo, hi + 1, 40):
             us.append(("range", sp, a0, min(a0 + 39, hi), hi, width))
         us.append(("range_far", sp))
+    # the same queries in mode A, then B, then A again within one process (answers must follow the active mode)
+    canon = [A.MODE_OF[k] for k in A.KINDS]
+    for a in canon:
+        for b in canon:
+            if a != b:
+                us.append(("switch", a, b))
     return us
 
 
@@ -148,6 +154,21 @@ def _year(ctx, sp, c, y):
 def run_unit(unit, ctx):
     kind_u = unit[0]
     sp = unit[1]
+    if kind_u == "switch":
+        for spx in (unit[1], unit[2], unit[1]):
+            impl.set_mode(spx)
+            cx = M.cal(spx)
+            for y in (1999, 2000, 2001, 2004, 2005):
+                _year(ctx, spx, cx, y)
+                for doy in A.days_boundary(cx, y):
+                    _day(ctx, spx, cx, cx.dn_from_ord(y, doy), False)
+            for a, b in ((1999, 2004), (2000, 2000), (1996, 2005), (-4, 4)):
+                ctx.t()
+                got, want = D.get_days_in_year_range(a, b), cx.days_in_year_range(a, b)
+                if got != want:
+                    ctx.violation("days_in_year_range", {"fn": "days_in_year_range", "switch": True},
+                                  {"kind": "switch", "mode": spx, "a": unit[1], "b": unit[2]}, want, got)
+        return
     impl.set_mode(sp)
     c = M.cal(sp)
     if kind_u == "days":
@@ -189,6 +210,9 @@ def run_unit(unit, ctx):
 
 
 def replay_case(case, ctx):
+    if case["kind"] == "switch":
+        run_unit(("switch", case["a"], case["b"]), ctx)
+        return
     sp = case["mode"]
     impl.set_mode(sp)
     c = M.cal(sp)
